@@ -1,34 +1,8 @@
-import NiftyVerif.Model.LinOpsProto
-import NiftyVerif.Model.Response
-open Lean NiftyVerif NiftyVerif.Proto NiftyVerif.Coo NiftyVerif.LinOps NiftyVerif.LinOpsProto NiftyVerif.Response
+import NiftyVerif.Model.ResponseProto
+open NiftyVerif.Proto
 
 /-!
-  C35 model driver.  "cls" = LinearInterpolator / LOSResponse are handled here (Model/Response.lean, exact rationals);
-  every other "cls" (FieldZeroPadder, RegriddingOperator, MaskOperator, …) goes to the shared LinOps handler.
-    {"cls":"LinearInterpolator","shape":[..],"dist":["p/q",..],"points":[[x_0,..,x_{d-1}],…], "x":…, "y":…}
-    {"cls":"LOSResponse","shape":[..],"dist":[..],"starts":[[..],…],"ends":[[..],…]}   weights in line-parameter units
+  C35 model driver: the handler lives in NiftyVerif/Model/ResponseProto.lean (protocol documented there).
 -/
 
-def ratLists? (j : Json) (k : String) : Option (List (List Rat)) := (field? j k).bind (listOf? ratList?)
-
-def toCQ (M : Coo Rat) : Coo CQ := ⟨M.rows, M.cols, M.ent.map fun e => (e.1, e.2.1, CQ.ofRat e.2.2)⟩
-
-def handle35 (j : Json) : Json :=
-  match fStr? j "cls" with
-  | some "LinearInterpolator" =>
-    match fNatList? j "shape", fRatList? j "dist", ratLists? j "points" with
-    | some shape, some dist, some pts =>
-      if dist.length != shape.length || pts.any (fun p => p.length != shape.length) then jErr "TypeError" else
-      if dist.any (· == 0) then jErr "bad-args" else
-      render j (twoModes (toCQ (interpCoo shape dist pts)))
-    | _, _, _ => jErr "bad-args"
-  | some "LOSResponse" =>
-    match fNatList? j "shape", fRatList? j "dist", ratLists? j "starts", ratLists? j "ends" with
-    | some shape, some dist, some st, some en =>
-      if st.length != en.length || st.any (fun p => p.length != shape.length) || en.any (fun p => p.length != shape.length)
-      then jErr "TypeError" else
-      render j (twoModes (toCQ (losCoo shape dist st en)))
-    | _, _, _, _ => jErr "bad-args"
-  | _ => LinOpsProto.handle j
-
-def main : IO Unit := run handle35
+def main : IO Unit := run NiftyVerif.ResponseProto.handle35
